@@ -137,9 +137,10 @@ func genLayoutOnce(r *rand.Rand, o layoutOpts) model.Layout {
 		case 1:
 			n = 2
 		case 2:
-			n = uint32(350 + r.Intn(o.maxPoints0-349+1))
-			if int(n) > o.maxPoints0 {
-				n = uint32(o.maxPoints0)
+			if o.maxPoints0 > 350 {
+				n = uint32(350 + r.Intn(o.maxPoints0-349))
+			} else {
+				n = uint32(1 + r.Intn(o.maxPoints0))
 			}
 		default:
 			n = uint32(1 + r.Intn(60))
